@@ -70,7 +70,7 @@ func (w *mhWorld) fail(prop, sig, format string, a ...interface{}) {
 func newMHWorld(prop string, pools int) *mhWorld {
 	w := &mhWorld{prop: prop, epoch: 1023}
 	w.hrWorld = newHRWorld(pools, vrt.Second)
-	s := &mhServer{l: w.oldL, tag: 'A', proc: 2}
+	s := &mhServer{l: w.oldL, tag: 'O', proc: 2}
 	w.servers = []*mhServer{s}
 	w.listening = s
 	return w
@@ -125,7 +125,7 @@ func (w *mhWorld) probe() ([]byte, []error) {
 }
 
 func (w *mhWorld) startServer() {
-	tag := byte('A' + len(w.servers))
+	tag := byte('O' + len(w.servers))
 	proc := 2 + len(w.servers)
 	l := w.startListener(proc, tag)
 	s := &mhServer{l: l, tag: tag, proc: proc}
